@@ -380,5 +380,6 @@ func Run(c *gen.Ctx) error {
 	meta.Rule = "request histories against handler.Server+POST+AutomaticPersistedQuery: exhaustive up to length 2 over a 19-form alphabet (3 texts x {text only, text+own hash, text+another text's hash, text+garbage hash, hash only, garbage hash only, malformed extension, wrong version, no query}) with MapCache and LRU(1); exhaustive length 3 over a 9-form core alphabet; random histories of length 4..12 with MapCache/LRU(1..3); every history up to length 3 over two texts that differ only in white space inside a string value x {text only, text + own hash, hash only}; every history up to length 3 over three white-space-padded forms of a text sent with the hash of the unpadded text, honest registrations and hash-only requests. The server has a parsed-document cache (as NewDefaultServer installs); what is observed as executed is the executed DOCUMENT, mapped back to the text it is the parse of. Non-trivial = a history in which some hash-only request resolved to a text; distinct by (cache, request list)."
 	meta.Samples = []any{descr[exhaustive-1], descr[len(descr)-1]}
 	meta.Distribution = map[string]any{"exhaustive_cases": exhaustive, "random_cases": nrand, "request_forms": kinds, "observed_outcomes": outcomes, "history_lengths": lens}
+	concurrentClients(c, gen.NewRand(c.Seed+23), meta)
 	return meta.Write(c.OutDir)
 }
